@@ -62,7 +62,7 @@ def cells(tier):
     out.append(rt(['roItemReplace'], maxlen=1, T=2 * T, tree='ids', example={'c0': chr(10), 'c1': ' '}))
     out.append(rt(['none'], maxlen=1, T=2 * T, latin=True))
     out.append(rt(['roStorySend'], maxlen=1, T=2 * T, latin=True,
-                  example={'c0': '&lt;b&gt; AT&amp;T', 'c1': 'x &amp;#12; y \U0001F600'}))
+                  example={'c0': 'a &#12; b &lt;i&gt;', 'c1': 'x &amp;#12; y \U0001F600'}))
     out.append(rt(['roItemInsert', 'roStoryReplace'], maxlen=1, T=2 * T,
                   example={'c0': '&amp;#13;&#10;', 'c1': '&quot; \u2028 \u00a0'}))
     # envelope invariants after every kind of merge (resolvable or not)
